@@ -2,6 +2,7 @@ package main
 
 import (
 	"fmt"
+	"hash/fnv"
 	"go/constant"
 	"go/token"
 	"go/types"
@@ -282,7 +283,20 @@ func (e *Engine) execInstr(st *State, th *Thread, fr *Frame, instr ssa.Instructi
 				e.schedPoint(st, th, "load", in.Pos())
 			}
 			th.granted = false
-			e.setReg(fr, in, e.loadPtr(st, p))
+			if e.cfg.Race && (len(p.path) > 0 || p.sym != nil) {
+				e.raceAccess(st, p.obj, false)
+			}
+			lv := e.loadPtr(st, p)
+			if iv, isI := lv.(IfaceV); isI {
+				// reinterpretation of an interface value as its two machine words
+				// (*(*[2]uintptr)(unsafe.Pointer(&iface))): type word and data word
+				if at, ok := in.Type().Underlying().(*types.Array); ok && at.Len() == 2 {
+					lv = e.ifaceWords(iv)
+				} else if bt, ok := in.Type().Underlying().(*types.Basic); ok && bt.Kind() == types.Uintptr {
+					lv = e.ifaceWords(iv).(*ArrV).get(0) // first word only: the type word
+				}
+			}
+			e.setReg(fr, in, lv)
 		case token.ARROW:
 			e.execRecv(st, th, fr, in)
 			return
@@ -296,6 +310,9 @@ func (e *Engine) execInstr(st *State, th *Thread, fr *Frame, instr ssa.Instructi
 		}
 		th.granted = false
 		p = e.concPtr(st, p)
+		if e.cfg.Race && len(p.path) > 0 {
+			e.raceAccess(st, p.obj, true)
+		}
 		st.store(p, e.val(st, fr, in.Val))
 	case *ssa.FieldAddr:
 		p := e.val(st, fr, in.X).(Ptr)
@@ -340,6 +357,7 @@ func (e *Engine) execInstr(st *State, th *Thread, fr *Frame, instr ssa.Instructi
 			panic(goPanic{fmt.Sprintf("makeslice: allocation of %d elements exceeds engine limit %d", c, e.cfg.MaxAlloc)})
 		}
 		obj := st.alloc(&ArrV{n: c, def: e.zero(elemType(in.Type()))})
+		e.markLibArray(st, obj)
 		e.setReg(fr, in, SliceV{obj: obj, off: e.i64(0), len: e.i64(uint64(n)), cap: e.i64(uint64(c))})
 	case *ssa.MakeMap:
 		obj := st.alloc(&MapData{})
@@ -740,6 +758,15 @@ func (e *Engine) valEq(st *State, x, y Value) *Term {
 		return ts.Bool(a.obj == 0 && b.obj == 0)
 	case nil:
 		return ts.Bool(y == nil)
+	case ReflTypeV:
+		b, ok := y.(ReflTypeV)
+		if !ok {
+			return ts.False
+		}
+		if a.typ != nil && b.typ != nil {
+			return ts.Bool(types.Identical(a.typ, b.typ))
+		}
+		return ts.Bool(a.sig != nil && b.sig != nil && types.Identical(a.sig, b.sig))
 	}
 	panic(engErr("valEq on %T", x))
 }
@@ -817,6 +844,7 @@ func (e *Engine) convert(st *State, x Value, from, to types.Type) Value {
 			}
 			off := e.concInt(st, v.off)
 			arr := st.heap[v.obj].(*ArrV)
+			e.raceAccess(st, v.obj, false)
 			m := make(map[int]Value, n)
 			for i := 0; i < n; i++ {
 				m[i] = arr.get(off + i)
@@ -839,6 +867,7 @@ func (e *Engine) convert(st *State, x Value, from, to types.Type) Value {
 				m[i] = s.arr.get(off + i)
 			}
 			obj := st.alloc(&ArrV{n: n, def: ts.BV(8, 0), m: m})
+			e.markLibArray(st, obj)
 			return SliceV{obj: obj, off: e.i64(0), len: e.i64(uint64(n)), cap: e.i64(uint64(n))}
 		}
 		return x
@@ -1196,4 +1225,26 @@ func (e *Engine) concPtr(st *State, p Ptr) Ptr {
 	i := e.concInt(st, p.sym)
 	q := Ptr{obj: p.obj, path: p.path}
 	return q.extend(i)
+}
+
+// ifaceWords models the in-memory representation of an interface value as [2]uintptr:
+// word 0 identifies the dynamic type, word 1 the data (pointer identity for pointer-shaped
+// values, a content hash for boxed values, which Go may or may not share).
+func (e *Engine) ifaceWords(iv IfaceV) Value {
+	w0, w1 := uint64(0), uint64(0)
+	if iv.t != nil {
+		w0 = e.typeID(iv.t)
+		x := &hasher{h: fnv.New64a(), canon: map[int]uint64{}}
+		switch v := iv.v.(type) {
+		case Ptr:
+			x.u64(uint64(v.obj))
+			for _, p := range v.path {
+				x.u64(uint64(p))
+			}
+		default:
+			e.hashValue(x, v)
+		}
+		w1 = x.h.Sum64() | 1
+	}
+	return &ArrV{n: 2, def: e.i64(0), m: map[int]Value{0: e.i64(w0), 1: e.i64(w1)}}
 }
